@@ -6,7 +6,7 @@ import ast
 from ..source import norm, const_value, walk_no_nested
 from ..specs import operators as optab
 from . import coretypes as ct
-from .c10 import check_out_branch
+from . import array_folds as af
 from .common import (calls_in, is_name, params, single_return, root_name, returns_of, stores_in, flatten_targets,
                      attr_chain, bind_call)
 
@@ -47,9 +47,9 @@ def r1_inplace_twins(run, tree):
 
 
 def r2_out(run, tree):
-    run.rule("C17.R2", "out=: buffer written by numpy, unit stored on the out object, same object returned", "path rule", "",
-             floor=3)
-    check_out_branch(run, tree)
+    run.rule("C17.R2", "out=: buffer written by numpy, unit stored on the out object, same object returned", "D7 fold of _wrap_numpy with out=", "",
+             floor=4)
+    af.check_wrap_numpy_fold(run, tree, want=("out", "out-alias"))
 
 
 def r3_rhs_not_written(run, tree):
